@@ -526,6 +526,29 @@ def slot_index_ok(pe, vec_field, variant):
     return is_call(ix, 'into_raw') and action_field(ix[2][0], variant, 'machine')
 
 
+def helper_arms_slot(ctx, g, si, ai, ti):
+    """helper g stores Some(ScheduledAction{action: <param ai (cloned)>, time: <param ti>}) through its slot parameter si on every path"""
+    ga = ctx.an.get(g)
+    sts = []
+    for (pe, v, site, mp) in stores(ga):
+        if root_of(pe) == ('param', si) or (pe[0] == 'deref' and pe[1] == ('param', si)):
+            sts.append((pe, v, site))
+    if not sts:
+        return False
+    for (pe, v, site) in sts:
+        ok = v[0] == 'agg' and v[2] == 'Some'
+        if ok:
+            x = dict(v[3])['0']
+            ok = x[0] == 'agg' and x[1].endswith('ScheduledAction')
+            if ok:
+                d = dict(x[3])
+                ok = contains(d.get('action'), lambda y: y == ('param', ai)) and (d.get('time') == ('param', ti) or contains(d.get('time'), lambda y: y == ('param', ti)))
+        if not ok:
+            return False
+    lo, hi = min_max_on_paths(ga, 0, {s_[0] for (_, _, s_) in sts}, ga.cfg.reachable_from(0))
+    return lo >= 1
+
+
 def peek_nonstrict(ctx, rep, rid, fname, what):
     """the eligibility test of a peek loop includes slots due exactly now (t >= current_time, not t > current_time)"""
     prog, an = ctx.prog, ctx.an
@@ -551,6 +574,25 @@ def peek_nonstrict(ctx, rep, rid, fname, what):
             ok = (op == 'ge' and involves_now(r)) or (op == 'le' and involves_now(l))
             rep.ob(rid, fn, 'due-now-is-eligible', ok, '%s compares the slot time with current_time using %s' % (fname, op))
     rep.count_exact(rid, 'eligibility comparisons in ' + fname, n, 2)
+    # the result is the minimum over ALL slots: loops run to exhaustion, no short-circuiting search
+    loops = fa.cfg.loops()
+    for h, body in loops.items():
+        exits_ok = all(fa.blocks[y]['t']['k'] == 'unreachable' or (fa.blocks[x]['t']['k'] == 'switch' and x in body and any(
+            isinstance(l, tuple) for l in [lab])) for x in body for (y, lab) in fa.cfg.succ[x] if y not in body)
+        # exits only from the block that tests the iterator's next() result
+        bad = []
+        for x in body:
+            for (y, lab) in fa.cfg.succ[x]:
+                if y in body or fa.blocks[y]['t']['k'] == 'unreachable':
+                    continue
+                e = fa.operand(fa.blocks[x]['t']['d'], (x, len(fa.blocks[x]['s']))) if fa.blocks[x]['t']['k'] == 'switch' else None
+                if not (e is not None and e[0] == 'discr' and is_call(unload(e[1]), 'next')):
+                    bad.append(x)
+        rep.ob(rid, fn, 'every-slot-examined@L%d' % fa.blocks[h]['ln'], not bad, 'loop leaves before its iterator is exhausted' if bad else 'loop runs to exhaustion', site='%s:%d' % (fn.file, fa.blocks[h]['ln']))
+    rep.count_exact(rid, 'slot loops in ' + fname, len(loops), 2)
+    short = [callee_str(f) for scope in [fn] + prog.closures_of(fn) for (b, f, a, t) in calls(an.get(scope))
+             if any(callee_str(f).endswith(x) for x in ('::find', '::find_map', '::position', '::take_while', '::skip_while', '::any', '::all', '::nth', '::last', '::first'))]
+    rep.ob(rid, fn, 'no-short-circuiting-search', not short, '%s' % short)
 
 
 def check_C17(ctx, rep):
@@ -581,6 +623,26 @@ def check_C17(ctx, rep):
             rep.ob('C17.R1', tu, 'arm-present:' + var, False, '')
             continue
         mine = [(pe, v, s) for (pe, v, s) in sa_stores if fa.cfg.dominates(arms[var], s[0])]
+        if not mine:
+            # the slot may be written by a private helper called from the arm: helper(&mut slot[machine], action, time)
+            okh = False
+            why = 'no store and no helper call in the arm'
+            for (b, f, a, t) in calls(fa):
+                g = prog.fns.get(callee_key(f)) if f.get('resolved') else None
+                if g is None or g.crate != SIM or g.vis == 'Public' or not fa.cfg.dominates(arms[var], b):
+                    continue
+                si = [i for i, x in enumerate(a) if x[0] in ('ref',) and slot_index_ok(x[1], 'scheduled_action', var)]
+                if not si:
+                    continue
+                lo2, hi2 = count_between(fa, arms[var], h, {b})
+                ai = [i for i, x in enumerate(a) if contains(x, lambda y: is_call(y, 'Iterator>::next') or is_call(y, 'Iterator::next')) and i not in si and not contains(x, lambda y: action_field(y, var, 'timeout'))]
+                ti = [i for i, x in enumerate(a) if contains(x, lambda y: y == ('param', 3)) and contains(x, lambda y: action_field(y, var, 'timeout')) and contains(x, lambda y: is_call(y, 'trigger_delay'))]
+                okc = (lo2, hi2) == (1, 1) and len(ai) == 1 and len(ti) == 1
+                okg = okc and helper_arms_slot(ctx, g, si[0] + 1, ai[0] + 1, ti[0] + 1)
+                okh = okh or okg
+                why = 'helper %s(%s): called once on every arm path: %s; stores Some(ScheduledAction{action, time}) on every path: %s' % (g.name, ', '.join(show(x)[:25] for x in a), okc, okg)
+            rep.ob('C17.R1', tu, '%s:slot-overwritten-through-helper' % var, okh, why)
+            continue
         rep.ob('C17.R1', tu, '%s:one-slot-store' % var, len(mine) == 1, 'stores to scheduled_action in the arm: %d' % len(mine))
         for (pe, v, s) in mine:
             rep.ob('C17.R1', tu, '%s:slot-of-own-machine' % var, slot_index_ok(pe, 'scheduled_action', var), 'store to %s' % show(pe))
@@ -647,16 +709,68 @@ def check_C17(ctx, rep):
     dloops = da.cfg.loops()
     # clearing of the slot found by the search: `*opt = None` or `opt.take()` on the iterated element
     n_clear = 0
+
+    def takes_slots(g, field='scheduled_action'):
+        for (b, f, a, t) in calls(da):
+            if callee_key(f) == g.key and any(x[0] == 'ref' and in_field(x[1], field, 'SimState') for x in a):
+                return True
+        return False
+    helpers = [g for g in private_callees(ctx, ds) if clearing_sites(an.get(g)) or takes_slots(g)]
+    opaque = [g for g in helpers if not clearing_sites(an.get(g))]
+    for g in opaque:
+        # combinator-style helper (find/and_then/take): the comparison with the target lives in a closure
+        okc = False
+        for clo in [c for c in prog.fns.values() if c.dk == 'Closure' and c.key.startswith(g.key + '::')]:
+            ca_ = an.get(clo)
+            for (b, k, v) in ret_defs(ca_):
+                if contains(v, lambda y: (is_call(y, 'PartialEq>::eq') or is_call(y, 'PartialEq::eq')) and contains(y, lambda z: isinstance(z, tuple) and z and z[0] == 'fld' and z[3] == 'time')):
+                    okc = True
+        takes = any(contains(fa_v, lambda y: isinstance(y, tuple) and y and y[0] == 'fn' and y[1] and y[1].endswith('::take')) or is_call(fa_v, 'Option::<T>::take')
+                    for (pe_, fa_v, st_, mp_) in stores(an.get(g))) or any(callee_str(f).endswith('Option::<T>::take') for (b, f, a, t) in calls(an.get(g))) or \
+            any(isinstance(y, tuple) and y and y[0] == 'fn' and y[1] and y[1].endswith('::take') for (b, f, a, t) in calls(an.get(g)) for x in a for y in walk(x))
+        n_clear += sum(1 for (b, f, a, t) in calls(da) if callee_key(f) == g.key)
+        rep.ob('C17.R3', g, 'combinator-search-compares-time-with-target', okc and takes, 'helper %s finds the slot whose time equals the target and takes it' % g.name)
+    for sf in [ds] + [g for g in helpers if g not in opaque]:
+        sfa = an.get(sf)
+        inst = [i + 1 for i, t_ in enumerate(sf.inputs) if t_.endswith('time::Instant')]
+        mult = 1 if sf is ds else sum(1 for (b, f, a, t) in calls(da) if callee_key(f) == sf.key)
+        for (kind, pe, site) in clearing_sites(sfa):
+            n_clear += mult
+            nxs = [x[3] for x in walk(pe) if isinstance(x, tuple) and x and x[0] == 'call' and len(x) > 3 and x[3] is not None and (x[1].endswith('Iterator>::next') or x[1].endswith('Iterator::next'))]
+            ok = bool(nxs) and not any(sfa.cfg.can_reach(y, nb[0]) for nb in nxs for (y, l) in sfa.cfg.succ[site[0]])
+            rep.ob('C17.R3', sf, 'search-stops-at-first-match', ok, 'after clearing the slot (%s) the iterator is not advanced again' % kind)
+            pfi = an.paths(sf)
+            st = pfi.at(site[0], site[1]) if site[1] is not None else pfi.at_entry(site[0])
+            okm, w = all_paths(st, lambda S: due_fact(ctx, S, lambda l: is_field(l, 'time', 'ScheduledAction'), lambda r: r[0] == 'param' and r[1] in inst))
+            rep.ob('C17.R3', sf, 'cleared-slot-is-the-due-one', okm and bool(st), 'slot cleared only when its time equals the target')
+    # at most one slot is consumed per call: a second search (server side) runs only when the first found nothing
     pfd = an.paths(ds, history=True)
-    for (kind, pe, site) in clearing_sites(da):
-        n_clear += 1
-        nxs = [x[3] for x in walk(pe) if isinstance(x, tuple) and x and x[0] == 'call' and len(x) > 3 and x[3] is not None and (x[1].endswith('Iterator>::next') or x[1].endswith('Iterator::next'))]
-        ok = bool(nxs) and not any(da.cfg.can_reach(y, nb[0]) for nb in nxs for (y, l) in da.cfg.succ[site[0]])
-        rep.ob('C17.R3', ds, 'search-stops-at-first-match', ok, 'after clearing the slot (%s) the iterator is not advanced again' % kind)
-        pfi = an.paths(ds, entry=nxs[0][0]) if nxs and nxs[0][0] in da.cfg.loops() else an.paths(ds)
-        st = pfi.at(site[0], site[1]) if site[1] is not None else pfi.at_entry(site[0])
-        okm, w = all_paths(st, lambda S: due_fact(ctx, S, lambda l: is_field(l, 'time', 'ScheduledAction'), lambda r: r == ('param', 3)))
-        rep.ob('C17.R3', ds, 'cleared-slot-is-the-due-one', okm and bool(st), 'slot cleared only when its time equals the target')
+    searches = []
+    for g in helpers:
+        for (b, f, a, t) in calls(da):
+            if callee_key(f) == g.key:
+                searches.append(b)
+    if helpers:
+        rep.ob('C17.R3', ds, 'two-searches', len(searches) == 2, 'searches through a helper: %d' % len(searches))
+        searches.sort(key=lambda b: 0 if all(da.cfg.can_reach(b, o) for o in searches) else 1)
+        if len(searches) == 2:
+            second = searches[1]
+            okg, w = all_paths(pfd.at_entry(second), lambda S: any((f2[0] == 'variant' and f2[2] == 'None') or (f2[0] == 'bcall' and f2[1].endswith('is_none') and f2[3] is True) or
+                                                                    (f2[0] == 'bcall' and f2[1].endswith('is_some') and f2[3] is False) for f2 in S))
+            rep.ob('C17.R3', ds, 'second-search-only-if-first-found-nothing', okg and bool(pfd.at_entry(second)), 'the server slots are searched (and possibly consumed) only when no client action was due')
+    else:
+        # inline form: the server loop is entered only when the client loop found nothing
+        loops_ = da.cfg.loops()
+        clear_loops = []
+        for (kind, pe, site) in clearing_sites(da):
+            nxs = [x[3] for x in walk(pe) if isinstance(x, tuple) and x and x[0] == 'call' and len(x) > 3 and x[3] is not None and (x[1].endswith('Iterator>::next') or x[1].endswith('Iterator::next'))]
+            if nxs:
+                clear_loops.append(nxs[0][0])
+        if len(clear_loops) == 2:
+            a_, b_ = clear_loops
+            first, second = (a_, b_) if da.cfg.can_reach(a_, b_) else (b_, a_)
+            okg, w = all_paths(pfd.at_entry(second), lambda S: any((f2[0] == 'bcall' and f2[1].endswith('is_none') and f2[3] is True) or (f2[0] == 'variant' and f2[2] == 'None' and not contains(f2[1], lambda y: is_call(y, 'Iterator>::next'))) for f2 in S))
+            rep.ob('C17.R3', ds, 'second-search-only-if-first-found-nothing', okg and bool(pfd.at_entry(second)), '')
     rep.count_exact('C17.R3', 'slot clearing sites in do_scheduled_action', n_clear, 2)
     for (site, evn, evf, flds, ln) in sim_events(da):
         if evn == 'PaddingSent':
